@@ -68,14 +68,14 @@ func c04Jobs(tier string) []string {
 	add(base+",mss=536,ws=0,pwnd=1000,w=70000,b=1", 4)
 	add(base+",mss=1460,ws=2,pwnd=300,w=70000,b=1", 4)
 	// receive side: small buffer, application reads only once the window has closed
-	add("or=w,devs=o,mss=100,ws=-1,rcvbuf=200,pd=8x50,read=stall,b=1", 2)
-	add("or=w,devs=o,mss=100,ws=3,rcvbuf=4096,pd=6x1000,read=stall,b=1", 2)
+	add("or=w,devs=ob,mss=100,ws=-1,rcvbuf=200,pd=8x50,read=stall,b=1", 2)
+	add("or=w,devs=ob,mss=100,ws=3,rcvbuf=4096,pd=6x1000,read=stall,b=1", 2)
 	add("or=w,devs=o,mss=1460,ws=7,pd=1+7+33+1000+1,read=eager,b=1", 2)
 	add("or=w,devs=o,mss=1460,ws=-1,pd=1+7+33+1000+1,read=eager,b=1", 2)
 	if tier == "thorough" {
 		add(base+",mss=88,ws=-1,w=88+89+440,ptb=68,b=2", 16)
 		add(base+",mss=1460,ws=2,w=1460+1461,ptb=576,b=2", 16)
-		add("or=w,devs=o,mss=100,ws=-1,rcvbuf=200,pd=8x50,read=stall,b=2", 8)
+		add("or=w,devs=ob,mss=100,ws=-1,rcvbuf=200,pd=8x50,read=stall,b=2", 8)
 		add(base+",mss=536,ws=14,pwnd=4,w=70000,b=1", 4)
 		add(base+",mss=88,ws=-1,w=88+89+440,iss=4294967200,piss=2147483600,b=1", 2)
 	}
